@@ -28,6 +28,9 @@ def main(tier):
     dtrees, _ = progfam.generate('Expr_D3.cfg', module='Expr', timeout=600)
     pick = rnd.sample(trees, 3 if tier == 'quick' else 25) + rnd.sample(dtrees, 2 if tier == 'quick' else 15)
     cases = [{'k': 'expr', 'tree': json.loads(t), 'refine': 32} for t in pick]      # 12*32*32 = 12288 triangles per leaf
+    # cases that exposed a defect once stay in every run (F25: serial/TBB DedupeEdges order), + the class they belong to
+    cases += json.load(open(os.path.join(os.path.dirname(os.path.abspath(__file__)), 'C04_pinned.json')))
+    cases += [{'k': 'touch', 'refine': 32}]
     cases += [{'k': 'coincident', 'pairs': 48}, {'k': 'sphere', 'seg': 128}, {'k': 'batch', 'seg': 64},
               {'k': 'normals', 'seg': 96}, {'k': 'hull', 'seg': 128}, {'k': 'levelset', 'edge': 0.06}, {'k': 'smooth'},
               {'k': 'xsec', 'steps': 700}, {'k': 'curvature', 'seg': 128}]
